@@ -1,5 +1,6 @@
 import SeqVerif.Base.Proto
 import SeqVerif.Model.DedupIndex
+import SeqVerif.Model.CollectorReuse
 import SeqVerif.Model.Repetitions
 /-!
 Driver for C17.  Requests (one per line):
@@ -8,6 +9,7 @@ Driver for C17.  Requests (one per line):
       parse a bulk into a fresh collector (`collect`), optionally `Filter(appended)`, optionally `GroupLIDsByToken(lids)`
   `setm <dp> <ids> <positions>`            `DocsPositions.SetMultiple`
   `hist <history> <tokens> <ids>`          `run Active.empty history`, then queue of every token, position and fetch of every id
+  `reuse <steps>`                          ONE collector reused over a sequence of bulks (`reuseRun`), see `stepReuse`
   `conc <events> <tokens> <ids>`           `crun` of a schedule: events `|`-separated, `S<bulk>` (start) or `F<k>` (publish waiting collector k)
   `rep <interval> <idsources> <hist>`      `removeRepetitionsAdvanced`
   `merge <asc> <limit> <interval> <qprs>`  id/total/histogram part of `MergeQPRs`
@@ -57,11 +59,13 @@ def fmtHexBytes (b : Bytes) : String := String.ofList (b.flatMap fun x => [hexDi
 
 def idLe (a b : ID) : Bool := a.1 < b.1 || (a.1 == b.1 && a.2 ≤ b.2)
 
-def fmtCollector (c : Collector) (groups : Option (List (List Nat))) : String :=
+def fmtCollectorBody (c : Collector) (groups : Option (List (List Nat))) : String :=
   let g := match groups with
     | none => "*"
     | some gs => fmtList fmtNats gs ";"
-  s!"ok min={c.minMID} max={c.maxMID} docs={c.docsCounter} size={c.sizeCounter} tv={fmtList fmtHexBytes c.tokensValues} fl={fmtNats c.fieldsLengths} ids={fmtIDs c.ids} tid={fmtNats c.tokensInDocs} ti={fmtNats c.tokensIndex} pos={fmtNats (c.positions.map packDocPos)} groups={g}"
+  s!"min={c.minMID} max={c.maxMID} docs={c.docsCounter} size={c.sizeCounter} tv={fmtList fmtHexBytes c.tokensValues} fl={fmtNats c.fieldsLengths} ids={fmtIDs c.ids} tid={fmtNats c.tokensInDocs} ti={fmtNats c.tokensIndex} pos={fmtNats (c.positions.map packDocPos)} groups={g}"
+
+def fmtCollector (c : Collector) (groups : Option (List (List Nat))) : String := "ok " ++ fmtCollectorBody c groups
 
 def stepColl (b ms app lids : String) : String :=
   match b.toNat?, parseBulk ms with
@@ -96,6 +100,31 @@ def stepHist (h toks ids : String) : String :=
     let fe := ids.map fun i => match fetch a i with | none => "n" | some d => toString d
     s!"ok ids={fmtIDs a.ids} total={a.docsTotal} raw={a.docsRaw} from={a.from_} to={a.to} blocks={a.blocks.length} q={fmtList id q ";"} pos={fmtList id pos} fetch={fmtList id fe}"
   | _, _, _ => "bad-op"
+
+def parseDec (s : String) : Option InitDec :=
+  let f (c : Char) : Option Nat := if c = 'r' then some 8 else none
+  match s.toList with
+  | [a, b, c, d] => some ⟨f a, f b, f c, f d⟩
+  | _ => none
+
+def parseStep (s : String) : Option Step :=
+  match s.splitOn "@" with
+  | [d, b, ms, app] => do
+    let app ← (if app = "*" then some none else (parseIDs app).map some)
+    pure ⟨(← parseDec d), (← b.toNat?), (← parseBulk ms), app⟩
+  | _ => none
+
+/-- `reuse <step>#<step>...`, step = `<decisions>@<blockIndex>@<metas>@<appended|*>`, decisions = 4 letters
+`r` (re-allocate) / `k` (keep) for the ids, tokensBuf, tokensIndex, tokensValues solvers.  One collector is driven
+through all steps (`reuseRun`); the answer lists the collector after every step (groups for LIDs 1..n). -/
+def stepReuse (steps : String) : String :=
+  match (steps.splitOn "#").mapM parseStep with
+  | none => "bad-op"
+  | some steps =>
+    if steps.any (fun st => bulkPanics st.metas) then "panic nested-first" else
+    let cs := reuseRun RCollector.new steps
+    "ok " ++ "#".intercalate (cs.map fun c =>
+      fmtCollectorBody c (some (groupLIDsByToken c (List.range' 1 c.ids.length))))
 
 def parseEv (s : String) : Option Ev :=
   match s.toList with
@@ -168,6 +197,7 @@ def step (line : String) : String :=
   | ["setm", dp, ids, ps] => C17.stepSetm dp ids ps
   | ["hist", h, toks, ids] => C17.stepHist h toks ids
   | ["conc", evs, toks, ids] => C17.stepConc evs toks ids
+  | ["reuse", steps] => C17.stepReuse steps
   | ["rep", iv, ids, hist] => C17R.stepRep iv ids hist
   | ["merge", asc, limit, iv, qs] => C17R.stepMerge asc limit iv qs
   | _ => "bad-op"
